@@ -397,6 +397,10 @@ func (f *Frame) installFrameChecks(locs []assignLoc, alloc0 T) {
 		h, _ := cur.p.mapArrays(mt)
 		cur.oblige("frame", "map-store("+h+")", pos, cond(h, m))
 	}
+	f.frameAppendHook = func(cur *Frame, arr string, s T, pos token.Pos) {
+		// append writes in place when there is spare capacity: then the backing array must be owned
+		cur.oblige("frame", "append-in-place("+arr+")", pos, Or(Eq(SLen(s), SCap(s)), cond(arr, SPtr(s))))
+	}
 	f.frameCallHook = func(cur *Frame, callee string, ms ModSet, calleeLocs []assignLoc, hasAssigns bool, tr *Translator, pos token.Pos) {
 		if hasAssigns {
 			for _, l := range calleeLocs {
